@@ -731,6 +731,16 @@ def handler_prog(rng):
         L.append("csrw %s, %s" % (src, csr))
     else:
         L.append("csrrs %s, %s, %s" % (rd, csr, src))          # does not install: only csrrw/csrrwi write the vector
+    if rng.random() < 0.25:
+        # the handler is installed by a set-up ROUTINE that main calls; nothing falls through from main into it (main ends
+        # in a spin loop, or another function stands in between)
+        install = L[1:]
+        L = ["main:", rng.choice(["jal setup", "call setup"]), "csrrsi zero, ustatus, 1"]
+        L += rng.choice([["spin:", "j spin"], ["li a7, 10", "ecall", "between:", "addi a0, a0, 1", "ret"], ["jal between", "li a7, 10", "ecall", "between:", "ret"]])
+        L += ["setup:"] + install + ["ret", "%s:" % h]
+        L += ["csrrw t0, uscratch, t0", "sw t1, 0(t0)", "addi t1, t1, 1", "lw t1, 0(t0)", "csrrw t0, uscratch, t0"][:rng.randrange(0, 6)]
+        L.append(rng.choice(["uret", "uret", "j %s" % h]))
+        return "\n".join(L) + "\n"
     L += ["csrrsi zero, ustatus, 1", "li a7, 10", "ecall", "%s:" % h]
     if rng.random() < 0.12:
         # the handler's label is the last thing of the program, or only data follows it: there is no handler code at all
@@ -1050,3 +1060,29 @@ def zero_reg_prog(rng):
                              ["add a5, zero, t0"], ["mv a6, zero"], ["slt t3, x0, t0"], ["or t4, zero, zero"], ["seqz t5, zero"]])
     L += ["li a0, 0", "add a0, a0, a1", "li a7, 1", "ecall", "addi sp, sp, 16", "li a7, 10", "ecall"]
     return "\n".join(L) + "\n"
+
+
+def retreg_prog(rng):
+    """a function that returns values in several argument registers (written on every path) and a caller that reads them
+    after the call; and the counterpart: the caller reads a register the callee does NOT write (a genuine use after call)"""
+    rets = rng.sample(["a1", "a2", "a3", "a4", "a5", "a6", "a7"], rng.randrange(1, 4))
+    bad = rng.random() < 0.3
+    L = ["main:", "li a0, %d" % rng.randrange(1, 20)]
+    if bad:
+        L.append("li t4, 5")
+    L.append(rng.choice(["jal divmod", "call divmod", "jal ra, divmod"]))
+    for r in rets:
+        L.append("add a0, a0, %s" % r)
+    if bad:
+        L.append("add a0, a0, t4")
+    L += ["li a7, 1", "ecall", "li a7, 10", "ecall", "divmod:"]
+    if rng.random() < 0.5:
+        L += ["beqz a0, dm_zero"]
+        for r in rets:
+            L.append("addi %s, a0, %d" % (r, rng.randrange(1, 9)))
+        L += ["addi a0, a0, 1", "ret", "dm_zero:"]
+    for r in rets:
+        L.append("li %s, %d" % (r, rng.randrange(0, 9)))
+    L += ["addi a0, a0, 2", "ret"]          # (the argument is read on every path)
+    return "\n".join(L) + "\n", rets, bad
+
